@@ -48,7 +48,7 @@ type BinaryIndex struct {
 	Description    string
 	Homepage       string
 	DescriptionMD5 string   `control:"Description-md5"`
-	Tags           []string `delim:"," strip:"\n\r\t "`
+	Tags           []string `control:"Tag" delim:"," strip:"\n\r\t "`
 	Section        string
 	Priority       string
 	Filename       string
@@ -160,7 +160,7 @@ type SourceIndex struct {
 
 	Architecture []dependency.Arch
 
-	StandardsVersion string
+	StandardsVersion string `control:"Standards-Version"`
 	Format           string
 	Files            []MD5FileHash    `delim:"\n" strip:"\n\r\t "`
 	VcsBrowser       string           `control:"Vcs-Browser"`
